@@ -239,6 +239,10 @@ pub fn initial_states_d(t: Tier, with_big: bool) -> Vec<(Init, usize)> {
             exp2.an.push(name_rec(&a, T_CNAME, i, &long));
         }
         v.push((Init::Packet(encode(&exp2, Strategy::RdataOnly)), 1));
+        // names stored at offsets 8192 and 16378, pointed at by later records (larger than the insertion limit)
+        for p in al.iter().filter(|p| p.len() > 8192).step_by(3).take(3) {
+            v.push((Init::Packet(p.clone()), 1));
+        }
         // ~5 KB on the wire, ~80 KB expanded (beyond what a 16-bit length can say): 300 A records owned by a
         // 253-byte question name, then one authority and one additional record
         {
@@ -448,7 +452,7 @@ fn run(ctx: &mut Ctx, rep: &mut Report, mode: Mode) {
                     path.push(op.clone());
                     ctx.journal(|| json!({"initial": init_json(&inits[init].0), "ops": path.iter().map(op_to_json).collect::<Vec<_>>()}));
                 }
-                let vd = exec_op(&s, &op);
+                let vd = guarded(|| exec_op(&s, &op));
                 if count_it {
                     rep.transitions += vd.steps.max(1);
                     rep.evaluations += 1;
@@ -462,11 +466,19 @@ fn run(ctx: &mut Ctx, rep: &mut Report, mode: Mode) {
                     }
                     continue;
                 }
+                let mut limit_depth = None;
                 if !vd.clean() {
                     if count_it {
                         rep.bump("pruned_by_other_property", 1);
                     }
-                    continue;
+                    // C09/C10: a state whose *view* is off (C08 reports that) is still expanded by one more
+                    // operation, because what later operations then do to the message, and how they fail, is
+                    // this property's business (a stale flag or offset shows as a wrong effect one call later)
+                    let only_c08 = vd.c08.is_some() && vd.c09.is_none() && vd.c10.is_none();
+                    if mode == Mode::C08 || !only_c08 {
+                        continue;
+                    }
+                    limit_depth = Some(level + 2);
                 }
                 if let Some(n) = vd.next {
                     if n.packet.is_none() || decode(n.packet.as_ref().unwrap()).is_err() {
@@ -480,6 +492,7 @@ fn run(ctx: &mut Ctx, rep: &mut Report, mode: Mode) {
                         rep.states += 1;
                         if level + 1 < depth {
                             let (init, maxdepth) = (nodes[ni].init, nodes[ni].maxdepth);
+                            let maxdepth = limit_depth.map(|l| l.min(maxdepth)).unwrap_or(maxdepth);
                             nodes.push(Node { snap: n, parent: Some(ni), op: Some(op.clone()), init, maxdepth });
                         }
                         if rep.samples.len() < MAX_SAMPLES && rep.states % 1999 == 0 {
@@ -514,7 +527,7 @@ fn replay(case: &Value, mode: Mode) -> Result<String, String> {
     }
     for (i, op) in ops.iter().enumerate() {
         println!("op {}: {}", i, op_to_json(op));
-        let vd = exec_op(&s, op);
+        let vd = guarded(|| exec_op(&s, op));
         println!("   outcome: {} ; C08={:?} C09={:?} C10={:?}", vd.class, vd.c08.as_ref().map(|x| &x.0), vd.c09.as_ref().map(|x| &x.0), vd.c10.as_ref().map(|x| &x.0));
         if i + 1 == ops.len() {
             return match pick(&vd, mode) {
@@ -522,7 +535,9 @@ fn replay(case: &Value, mode: Mode) -> Result<String, String> {
                 None => Ok("last operation judged fine for this property".into()),
             };
         }
-        if !vd.clean() {
+        // as in the search: C09/C10 paths may run through one state whose only problem is its view
+        let only_c08 = vd.c08.is_some() && vd.c09.is_none() && vd.c10.is_none();
+        if !vd.clean() && (mode == Mode::C08 || !only_c08) {
             return Ok(format!("path no longer clean at op {} (another violation earlier on the path)", i));
         }
         match vd.next {
